@@ -377,7 +377,14 @@ func gen(g *vh.Gen) {
 		if g.Chance(0.05) {
 			e = g.Pick("x@y", `"`, `\`, "a b", "x.", ".x", rep("e", 70))
 		}
-		g.Emit("plus", vh.HS(l), vh.HS(e), vh.HS(flipCase(g, genDomain(g), 0.2)))
+		d := flipCase(g, genDomain(g), 0.2)
+		if g.Chance(0.08) {
+			// the general clause (theorem plus_insensitive_any): routes, at signs and colons anywhere, quoting in the extension
+			l = g.Pick("@r:u", "@r", "@r.example:"+l, `"a@b"`, "u@x", `a\@`, "", "@a,@b:"+l, `"`+l, l+`\`)
+			e = g.Pick(e, "x:y", "x@y", `"`, `\`, `"q"`, `\"`, "x:", ":x")
+			d = g.Pick(d, "x:u@"+d, `q"@`+d, "y@"+d, ":a@"+d, "@"+d)
+		}
+		g.Emit("plus", vh.HS(l), vh.HS(e), vh.HS(d))
 	}
 	// IP literals: the modelled parser against net.ParseIP
 	for i := 0; i < g.N(6000, 150000); i++ {
